@@ -209,6 +209,14 @@ def _direct(hg, df, feature, bin_specs, var_dtype, rowwise=False):
     return h
 
 
+def _scale_for(scale, f, rspecs):
+    """Tolerance scale of a feature: sums, means and variances of a *timestamp* column are accumulated over values of
+    1.6e18 ns, so their rounding is of the order eps * n * (1.6e18)**2 - far above anything the float columns produce."""
+    if f.split(":")[-1] == "t" and any(k_ in repr(_safe_spec(rspecs, f)) for k_ in ("deviate", "average", "sum")):
+        return scale * 2.6e36
+    return scale
+
+
 def run_case(i, rng, tier):
     hg = env.hg()
     from histogrammar.dfinterface.make_histograms import make_histograms
@@ -304,22 +312,19 @@ def run_case(i, rng, tier):
         except Exception as e:  # noqa: BLE001
             bad("direct filling of the tree described by the returned specs raised %s: %s (specs %r)" % (type(e).__name__, str(e)[:200], S.jsonable(_safe_spec(rspecs, f))), feature=f)
             continue
-        dd = O.diff(O.drop_zero_sparse(O.observe(d)), O.drop_zero_sparse(O.observe(h)), scale, drop_names=True)
+        dd = O.diff(O.drop_zero_sparse(O.observe(d)), O.drop_zero_sparse(O.observe(h)), _scale_for(scale, f, rspecs), drop_names=True)
         counters["direct_comparisons"] = counters.get("direct_comparisons", 0) + 1
         if dd:
             bad("histogram %s differs from filling the same tree directly from the columns: %s" % (f, C.fmt_diff(dd)), feature=f, specs=S.jsonable(_safe_spec(rspecs, f)))
         compared += 1
         # (2b) the same tree filled row by row (small frames; not where the C03 known finding about Sum and NaN applies)
-        # (nor for mean / variance of a timestamp column: at 1.5e18 ns the rounding of the two summation orders is of the
-        # size of the variance itself - the tolerance scale of this check is built from the float columns)
-        ts_moment = f.split(":")[-1] == "t" and any(k_ in repr(_safe_spec(rspecs, f)) for k_ in ("deviate", "average"))
-        if n <= 60 and not dd and "sum" not in repr(_safe_spec(rspecs, f)) and not ts_moment:
+        if n <= 60 and not dd and "sum" not in repr(_safe_spec(rspecs, f)):
             try:
                 d2 = _direct(hg, saved, f, rspecs, rdtype, rowwise=True)
             except Exception:  # noqa: BLE001
                 counters["rowwise_direct_not_possible"] = counters.get("rowwise_direct_not_possible", 0) + 1
             else:
-                dd2 = O.diff(O.drop_zero_sparse(O.observe(d2)), O.drop_zero_sparse(O.observe(h)), scale, drop_names=True)
+                dd2 = O.diff(O.drop_zero_sparse(O.observe(d2)), O.drop_zero_sparse(O.observe(h)), _scale_for(scale, f, rspecs), drop_names=True)
                 counters["rowwise_direct_comparisons"] = counters.get("rowwise_direct_comparisons", 0) + 1
                 if dd2:
                     bad("histogram %s differs from filling the same tree row by row: %s" % (f, C.fmt_diff(dd2)), feature=f, specs=S.jsonable(_safe_spec(rspecs, f)))
@@ -364,7 +369,7 @@ def run_case(i, rng, tier):
             except Exception as e:  # noqa: BLE001
                 bad("chunk histograms of %s cannot be added: %s: %s" % (f, type(e).__name__, str(e)[:200]), feature=f)
                 continue
-            dd = O.diff(O.drop_zero_sparse(O.observe(hists[f])), O.drop_zero_sparse(O.observe(items[0])), scale, drop_names=True)
+            dd = O.diff(O.drop_zero_sparse(O.observe(hists[f])), O.drop_zero_sparse(O.observe(items[0])), _scale_for(scale, f, rspecs), drop_names=True)
             counters["homomorphism_comparisons"] = counters.get("homomorphism_comparisons", 0) + 1
             if dd:
                 bad("histograms of %d row chunks of %s do not add up to the histogram of the whole frame: %s" % (len(parts), f, C.fmt_diff(dd)), feature=f, bounds=bounds)
